@@ -15,11 +15,11 @@ pub struct Live {
 }
 
 #[derive(Clone, Copy, PartialEq)]
-pub enum Profile { Graph, Kv, Alias, Index, Txn, Search, All, Hash }
+pub enum Profile { Graph, Kv, Alias, Index, Txn, Search, All, Hash, Big }
 
 pub fn profile_of(s: &str) -> Profile {
     match s { "graph" => Profile::Graph, "kv" => Profile::Kv, "alias" => Profile::Alias, "index" => Profile::Index,
-              "txn" => Profile::Txn, "search" => Profile::Search, "hash" => Profile::Hash, _ => Profile::All }
+              "txn" => Profile::Txn, "search" => Profile::Search, "big" => Profile::Big, "hash" => Profile::Hash, _ => Profile::All }
 }
 
 pub fn gen_key(r: &mut Rng) -> DbValue {
@@ -341,5 +341,92 @@ pub fn gen_select(r: &mut Rng, live: &Live, p: Profile) -> Q {
         7 => Q::SelectIndexes,
         8 => Q::SelectNodeCount,
         _ => Q::SearchQ(Box::new(gen_search(r, live, true, false))),
+    }
+}
+
+
+// ---------------------------------------------------------------------------------------------
+// Profile::Big — a few bulk steps build a graph of 15-45 nodes with tie-heavy keys ("g" in 0..3),
+// a key "ok" present on part of the elements and many edges; then targeted searches:
+// ordering with ties + limit/offset beyond 16 results, path searches whose conditions fail on some
+// elements without stopping, and condition lists that chain a traversal-stopping condition with `or`.
+pub fn gen_big_build(r: &mut Rng, live: &Live, stage: usize) -> Q {
+    let kv = |k: &str, v: DbValue| DbKeyValue { key: DbValue::String(k.into()), value: v };
+    let elem_kvs = |r: &mut Rng| {
+        let mut l = vec![kv("g", DbValue::I64(r.below(3) as i64))];
+        if r.chance(3, 5) { l.push(kv("ok", DbValue::I64(1))); }
+        if r.chance(1, 2) { l.push(kv("w", DbValue::I64(r.below(5) as i64))); }
+        l
+    };
+    if stage == 0 || live.nodes.len() < 4 {
+        let n = r.range(12, 30);
+        Q::InsertNodes(0, Qvalues::Multi((0..n).map(|_| elem_kvs(r)).collect()), vec![], Qids::Ids(vec![]))
+    } else {
+        let pick = |r: &mut Rng, k: u64| -> Vec<Qid> { (0..k).map(|_| Qid::Id(*r.pick(&live.nodes))).collect() };
+        if r.chance(1, 2) {
+            let (a, b) = (r.range(3, 6), r.range(3, 6));
+            Q::InsertEdges(Qids::Ids(pick(r, a)), Qids::Ids(pick(r, b)), Qvalues::Multi((0..a * b).map(|_| elem_kvs(r)).collect()), true, Qids::Ids(vec![]))
+        } else {
+            let a = r.range(8, 20);
+            Q::InsertEdges(Qids::Ids(pick(r, a)), Qids::Ids(pick(r, a)), Qvalues::Multi((0..a).map(|_| elem_kvs(r)).collect()), false, Qids::Ids(vec![]))
+        }
+    }
+}
+
+fn plain_cond(r: &mut Rng, live: &Live, and: bool) -> Cond {
+    let s = |k: &str| DbValue::String(k.into());
+    let data = match r.below(6) {
+        0 => CondData::Node,
+        1 => CondData::Edge,
+        2 => CondData::Keys(vec![s("ok")]),
+        3 => CondData::KeyValue(s("g"), ["eq", "ne", "lt", "ge"][r.below(4) as usize], DbValue::I64(r.below(3) as i64)),
+        4 => CondData::EdgeCountFrom(gen_cc(r, 3)),
+        _ => CondData::Ids((0..r.range(1, 3)).map(|_| gen_qid(r, live, false)).collect()),
+    };
+    Cond { and, modifier: if r.chance(1, 6) { "not" } else { "none" }, data }
+}
+
+fn stopping_cond(r: &mut Rng, live: &Live, and: bool) -> Cond {
+    match r.below(4) {
+        0 => Cond { and, modifier: "none", data: CondData::Distance(CC::Eq(r.range(1, 4))) },
+        1 => { let mut c = plain_cond(r, live, and); c.modifier = "notbeyond"; c }
+        2 => { let mut c = plain_cond(r, live, and); c.modifier = "beyond"; c }
+        _ => Cond { and, modifier: "none", data: CondData::Where(vec![stopping_cond(r, live, true), { let a = r.chance(1, 2); plain_cond(r, live, a) }]) },
+    }
+}
+
+pub fn gen_big_search(r: &mut Rng, live: &Live) -> Search {
+    let n = (live.nodes.len() + live.edges.len()) as u64;
+    let s = |k: &str| DbValue::String(k.into());
+    let node = |r: &mut Rng| if live.nodes.is_empty() { Qid::Id(1) } else { Qid::Id(*r.pick(&live.nodes)) };
+    match r.below(3) {
+        0 => { // ordering with ties and a cut inside a large result
+            let alg = ['b', 'd', 'e'][r.below(3) as usize];
+            let mut order = vec![(r.chance(1, 2), s(["g", "g", "missing", "w"][r.below(4) as usize]))];
+            if r.chance(1, 3) { order.push((r.chance(1, 2), s("w"))); }
+            let limit = if r.chance(5, 6) { r.range(1, n.max(2)) } else { 0 };
+            let offset = if r.chance(1, 2) { 0 } else { r.below(n / 2 + 1) };
+            let conds = if r.chance(1, 2) { vec![] } else { vec![plain_cond(r, live, true)] };
+            Search { alg, origin: if alg == 'e' { Qid::Id(0) } else { node(r) }, dest: Qid::Id(0), limit, offset, order, conds }
+        }
+        1 => { // path search with conditions that fail on some elements without stopping the search
+            let conds = match r.below(4) {
+                0 => vec![Cond { and: true, modifier: "none", data: CondData::Keys(vec![s("ok")]) }],
+                1 => vec![Cond { and: true, modifier: "none", data: CondData::KeyValue(s("g"), "ne", DbValue::I64(r.below(3) as i64)) }],
+                2 => vec![plain_cond(r, live, true), { let a = r.chance(1, 2); plain_cond(r, live, a) }],
+                _ => vec![],
+            };
+            let (limit, offset) = if r.chance(3, 4) { (0, 0) } else { (r.below(8), r.below(4)) };
+            Search { alg: 'b', origin: node(r), dest: node(r), limit, offset, order: vec![], conds }
+        }
+        _ => { // a traversal-stopping condition chained with or / and
+            let mut conds = vec![stopping_cond(r, live, true)];
+            conds.push({ let a = r.chance(1, 3); plain_cond(r, live, a) });
+            if r.chance(1, 3) { conds.push({ let a = r.chance(1, 2); plain_cond(r, live, a) }); }
+            if r.chance(1, 4) { conds.rotate_left(1); }
+            let alg = ['b', 'd'][r.below(2) as usize];
+            let (origin, dest) = if r.chance(3, 4) { (node(r), Qid::Id(0)) } else { (Qid::Id(0), node(r)) };
+            Search { alg, origin, dest, limit: 0, offset: 0, order: vec![], conds }
+        }
     }
 }
